@@ -1,7 +1,8 @@
 """Implementation worker of the correspondence stream `dataclass` (C10, C11).
 
 Input: JSON list of lowered cases (harness/dc_common.py).  For every case the worker writes a real
-module with the generated class definitions (module level, or inside a function for `scope: local`),
+module with the generated class definitions (module level, or inside a function for `scope: local`; user __post_init__
+bodies are real code: J.append(..), object.__setattr__(self, name, value), super().__post_init__(), raise),
 builds the argument objects of the initial heap (one real object per heap cell, so that identity can be
 observed with `is`), runs the operation script on the real classes and prints, per operation,
   obs  - the observation in exactly the integer encoding of coq/Model/DataclassEval.v
@@ -65,6 +66,21 @@ def fname(n):
     return 'f%d' % n
 
 
+def attr_name(n):
+    """fields are f<n>; 90 is the new public name, 91 the private one"""
+    return fname(n) if n < 90 else ('zz%d' % n if n == 90 else '_p%d' % n)
+
+
+def pi_norm(pi):
+    if pi is None:
+        return None
+    if pi == 'ret':
+        return {'body': [], 'raise': None}
+    if isinstance(pi, list):
+        return {'body': [], 'raise': pi[1]}
+    return pi
+
+
 # ------------------------------------------------------------------------------------------ class source
 def deco_line(d):
     if d is None:
@@ -104,10 +120,16 @@ def class_source(case, indent=''):
                     body.append(f'{fname(f["name"])}: ANN_{f["tok"]} = field({", ".join(opts)})')
                 else:
                     body.append(f'{fname(f["name"])}: ANN_{f["tok"]}')
-        if c['pi'] is not None:
+        h = pi_norm(c['pi'])
+        if h is not None:
             body.append('def __post_init__(self):')
             body.append(f'    J.append({100 + c["id"]})')
-            if c['pi'] != 'ret':
+            for k, st in enumerate(h['body']):
+                if st[0] == 'set':
+                    body.append(f'    object.__setattr__(self, {attr_name(st[1])!r}, HV_{c["id"]}_{k})')
+                else:
+                    body.append('    super().__post_init__()')
+            if h['raise'] is not None:
                 body.append(f'    raise EXC_{c["id"]}()')
         if not body:
             body.append('pass')
@@ -499,6 +521,13 @@ def run_op(w, case, classes, call, regs, op):
         if res is orig:
             viol.append({'clause': f'{meth} returns a new instance'})
         given = dict(kwl)
+        # a field that a user-written __post_init__ of the hierarchy assigns holds what the hook assigned: the field clauses
+        # of the property are judged on the other fields
+        hooked = set()
+        for k in chain_of(case, c):
+            h = pi_norm(k['pi'])
+            if h:
+                hooked |= {st[1] for st in h['body'] if st[0] == 'set'}
         same_orig, same_kw = [], []
         for f in fields:
             n = f['name']
@@ -526,7 +555,9 @@ def run_op(w, case, classes, call, regs, op):
                     reinit = (type(mine) is FACTORY[f['default'][1]] and len(mine) == 0 and id(mine) not in w.init_id
                               and mine is not theirs_or_none(orig, n))
             # the property text, per field
-            if n in given:
+            if n in hooked:
+                pass
+            elif n in given:
                 if mine is not given[n]:
                     viol.append({'clause': f'{meth}: a replaced field holds the given object', 'field': n})
             elif same_orig[-1] == 2:
@@ -547,6 +578,7 @@ def run_op(w, case, classes, call, regs, op):
         o_vals = [getattr(orig, fname(n)) for n in names if hasattr(orig, fname(n))]
         m_vals = [getattr(res, a) for a in unrep if hasattr(res, a)]
         mine_mut = set(w.reach_mutable(m_vals))
+        mine_mut_free = set(w.reach_mutable([getattr(res, a) for a in unrep if hasattr(res, a) and a not in {fname(x) for x in hooked}]))
         shared = len(set(w.reach_mutable(o_vals)) & mine_mut)
 
         def field_values(inst):
@@ -564,7 +596,7 @@ def run_op(w, case, classes, call, regs, op):
             for inst_cls, inst in CUR['ever']:
                 if inst is not orig and inst is not res:
                     ever += field_values(inst)
-            stale = set(w.reach_mutable(ever)) & mine_mut
+            stale = set(w.reach_mutable(ever)) & mine_mut_free
             if stale:
                 viol.append({'clause': 'deep_copy_with: the un-replaced fields hold freshly made mutable objects '
                                        '(not the objects an earlier copy holds)', 'shared_with_earlier_instances': len(stale)})
@@ -581,7 +613,7 @@ def run_op(w, case, classes, call, regs, op):
             return [98], viol
         c, inst = r
         names = [f['name'] for f in merged_fields(case, c)]
-        nm = fname(op[2]) if op[2] < 90 else ('zz%d' % op[2] if op[2] == 90 else '_p%d' % op[2])
+        nm = attr_name(op[2])
         before = snapshot(w, inst, names)
         if kind == 'setattr':
             v = w.val(op[3])
@@ -589,7 +621,8 @@ def run_op(w, case, classes, call, regs, op):
         else:
             code, res = attempt(lambda: delattr(inst, nm))
         after = snapshot(w, inst, names)
-        must_reject = head_decorated(case, c) or op[2] in names
+        # the property: instances of @frozen_dataclass classes (also through an undecorated subclass) reject every assignment / deletion
+        must_reject = any(k['deco'] is not None for k in chain_of(case, c))
         if must_reject and (code == 0 or before != after):
             viol.append({'clause': f'{kind} on an instance is rejected and changes nothing', 'name': nm, 'outcome': code,
                          'changed': before != after})
@@ -687,8 +720,13 @@ def run_case(case):
     for k, a in enumerate(anns):
         env[f'ANN_{k}'] = a
     for c in case['classes']:
-        if c['pi'] not in (None, 'ret'):
-            env[f'EXC_{c["id"]}'] = excs.cls_of(c['pi'][1])
+        h = pi_norm(c['pi'])
+        if h is not None:
+            if h['raise'] is not None:
+                env[f'EXC_{c["id"]}'] = excs.cls_of(h['raise'])
+            for k, st in enumerate(h['body']):
+                if st[0] == 'set':
+                    env[f'HV_{c["id"]}_{k}'] = w.val(st[2])
         for f in c['fields']:
             if f['default'] is not None and f['default'][0] == 'val':
                 env[f'DV_{c["id"]}_{f["name"]}'] = w.val(f['default'][1])
